@@ -120,6 +120,12 @@ def run(ctx):
     shared.no_one_shot_state(ctx, 'R2')
     r3_set_order(ctx, eng, [f for f, _ in entries])
     shared.no_shared_mutable_defaults(ctx, 'R4')
+    # "two imports of the same text are indistinguishable": every token is built by the call that imports its cell (no flyweight
+    # shared between documents) - C12.R2 as R5
+    from . import c12
+    ctx.alias = {'R2': 'R5'}
+    c12.r2_fresh_listener(ctx, ctx.prog.func(f'{N.KERN_IMP}.KernSpineImporter.import_token'))
+    ctx.alias = {}
 
 
 def r3_set_order(ctx, eng, entries):
